@@ -367,6 +367,18 @@ func wheres(sh *Shape, size int) []*E {
 				Bin("and", Bin("is", Col(x), Con(vi(1))), Bin("is", Col(x), Con(vi(2))))) // conflict
 		}
 	}
+	// the last column (of a join: a column of the second source only) with
+	// predicates that the empty string satisfies: what a where above a leftjoin
+	// must not lose
+	if last := sh.Cols[len(sh.Cols)-1]; len(sh.Cols) > 1 {
+		out = append(out, Bin("is", Col(last), Con(vs(""))))
+		switch sh.Typ[last] {
+		case TInt:
+			out = append(out, Bin("isnt", Col(last), Con(vi(1))))
+		case TStr:
+			out = append(out, Bin("isnt", Col(last), Con(vs("y"))))
+		}
+	}
 	if len(ints) > 1 && size >= 1 {
 		out = append(out, Bin("is", Col(ints[0]), Col(ints[1])),
 			Bin("and", Bin("is", Col(ints[0]), Con(vi(1))), Bin("is", Col(ints[1]), Con(vi(2)))))
